@@ -72,6 +72,20 @@ CURATED = [
     [('if', (('if', (A,), ()),), (A,)), R],
     [A, R, ('if', (A,), ()), R, A],
     [('if', (A, R), (A,)), ('if', (R,), ())],
+    # a name already known to an enclosing path (read while unassigned), then touched on one side only
+    [R, ('if', (), (A,)), R],
+    [R, ('if', (A,), ()), R],
+    [R, ('if', (), (('if', (), (A,)),)), R],
+    [R, ('if', (R,), (A,)), R],
+    [R, ('if', (A,), (R,)), R],
+    [('if', (R,), ()), ('if', (), (A,)), R],
+    [('if', (), (R,)), ('if', (A,), ()), R],
+    [R, ('if', (), (A,)), R, ('if', (A,), ()), R],
+    # the same name read unassigned on several lines: every such read is reported
+    [('if', (R,), ()), R],
+    [R, R],
+    [('if', (R,), (R,)), R],
+    [R, ('if', (A,), ()), R, R],
 ]
 
 
@@ -627,9 +641,58 @@ def r4_merge_both_sides(ctx, sym, at):
                   "the program\n" + '\n'.join(render(prog)))
 
 
+def r6_issue_recording(ctx, sym, at):
+    ctx.rule('R6', "TifaCore._issue, executed abstractly on sequences of issues (same label and variable on several "
+                   "lines, different labels, both calling conventions), records every issue it is given, in order, "
+                   "under its label - the flow table's verdict per read reaches the analysis result unfiltered")
+    from .. import symexec
+    fn = at.core_methods.get('_issue')
+    if fn is None:
+        raise AnalysisError("anchor vanished: TifaCore._issue")
+    ctx.analysed_function(at.core, fn)
+    sequences = {
+        'same-name-two-lines': [('initialization_problem', 'a', 3), ('initialization_problem', 'a', 5)],
+        'same-name-same-line': [('initialization_problem', 'a', 3), ('initialization_problem', 'a', 3)],
+        'two-names': [(POSSIBLE, 'a', 2), (POSSIBLE, 'b', 2), (POSSIBLE, 'a', 9)],
+        'two-labels': [('initialization_problem', 'a', 1), ('unused_variable', 'a', 1), (POSSIBLE, 'a', 4)],
+        'no-name-field': [('incompatible_types', None, 1), ('incompatible_types', None, 2)],
+    }
+    for by_name in (False, True):
+        for sname, seq in sequences.items():
+            analysis = Obj('analysis', issues={})
+            me = symexec.self_obj(at.core, 'TifaCore', analysis=analysis, report=Obj('report'))
+            made = []
+
+            def mk(label, name, line):
+                f = Obj('feedback:%s' % label, label=label, fields=({'name': name} if name is not None else {}),
+                        location=Obj('location', line=line))
+                made.append(f)
+                return f
+            fd = symexec.new_fd(sym, at.core, calls={
+                'lookup_feedback': lambda label: (lambda *a, **k: mk(label, *a[:2]))})
+            raised = None
+            for label, name, line in seq:
+                args = [label, name, line] if by_name else [mk(label, name, line)]
+                _, raised = symexec.run(fd, fn, args, bound_self=me, what='TifaCore._issue')
+                if raised is not None:
+                    break
+            got = analysis.attrs['issues']
+            want = {}
+            for f in made:
+                want.setdefault(f.attrs['label'], []).append(f)
+            ok = raised is None and isinstance(got, dict) and set(got) == set(want) and all(
+                len(got[k]) == len(want[k]) and all(x is y for x, y in zip(got[k], want[k])) for k in want)
+            ctx.check(ok, 'R6', '_issue:records-all[%s,%s]' % (sname, 'by-name' if by_name else 'object'), at.core, fn,
+                      "after reporting %r the analysis holds %s%s; every issue must be recorded under its label" % (
+                          seq, {k: len(v) for k, v in got.items()} if isinstance(got, dict) else got,
+                          '' if raised is None else ' (raises %s)' % raised.kind),
+                      "c = 0\nif c:\n    print(a)\nprint(a)   # the second read is the one that fails at run time")
+
+
 def run(ctx):
     sym = Symbols(ctx.repo)
     at = r5_program_table(ctx, sym, ctx.tier)
+    r6_issue_recording(ctx, sym, at)
     r1_join_table(ctx, sym, at)
     r2_issue_dispatch(ctx, sym, at)
     r3_path_discipline(ctx, sym, at)
